@@ -7,8 +7,9 @@ from props import _units as X
 ID = "C18"
 SECTIONS = ["units"]
 LEAN_MODULES = ["QExPy.Props.C18"]
+LEMMA_MODULES = ["QExPy.Lemmas.Units", "QExPy.Lemmas.UnitsDefs"]
 THEOREMS = ["QExPy.C18_pack_sound", "QExPy.C18_unpack_sound", "QExPy.C18_mul_div_dim",
-            "QExPy.C18_named_only_if_power", "QExPy.C18_clear"]
+            "QExPy.C18_named_only_if_power", "QExPy.C18_clear", "QExPy.C18_dim_preserved"]
 RULE = ("define/clear/evaluate histories: definition chains (N = kg*m/s^2, J = N*m, W = J/s, "
         "Pa = N/m^2 and random compounds, each mentioning base symbols and earlier names, "
         "occasional redefinition in base symbols), trees as in C08 whose leaves are written in "
